@@ -67,6 +67,7 @@ def step (st : Option NodeLedger.State) (line : String) : Option NodeLedger.Stat
       let g : Header := { id := 0, parent := 4294967295, height := 0, slot := 0, rank := 0, sup := [] }
       let gtxs := match kv rest "gtxs" with | some x => parseTxs x | none => []
       let s := NodeLedger.State.init { epoch := e, nVal := v, me := me } { votePending := pend } g gtxs
+      let s := { s with interval := ((kv rest "interval").bind String.toNat?).getD 1000, metas := [(0, { ts := 0, signer := none, future := false, bad := false })] }
       (some s, dump s "ok")
     | _, _, _ => (st, "bad-op")
   | "def" :: idS :: rest =>
@@ -75,7 +76,11 @@ def step (st : Option NodeLedger.State) (line : String) : Option NodeLedger.Stat
     | some s, some id, some p, some h, some sl, some rk =>
       let hd : Header := { id := id, parent := p, height := h, slot := sl, rank := rk, sup := [] }
       let txs := match kv rest "txs" with | some x => parseTxs x | none => []
-      (some { s with node := { s.node with defs := hd :: s.node.defs }, blockTxs := (id, txs) :: s.blockTxs }, "ok")
+      let metas := match (kv rest "ts").bind String.toNat? with
+        | some ts => (id, ({ ts := ts, signer := (kv rest "signer").bind String.toNat?,
+                             future := (kv rest "future") == some "1", bad := (kv rest "bad").isSome } : Meta)) :: s.metas
+        | none => s.metas
+      (some { s with node := { s.node with defs := hd :: s.node.defs }, blockTxs := (id, txs) :: s.blockTxs, metas := metas }, "ok")
     | _, _, _, _, _, _ => (st, "bad-op")
   | "deliver" :: idS :: rest =>
     match st, parseId idS with
